@@ -3,16 +3,18 @@
      inv a      every node: entries >= 0; Bin / SparselyBin / CentrallyBin / IrregularlyBin /
                 Categorize: the entries of all bins and flows sum to the node's entries;
                 Label / UntypedLabel / Index / Branch: every child has the parent's entries;
-                Fraction: the denominator has the parent's entries; Bag: the weights sum to entries
+                Fraction: the denominator has the parent's entries; Bag: the weights sum to entries;
+                Stack with thresholds -inf = t0 <= t1 <= ... and one child per threshold plus the
+                nanflow: the levels are non-increasing and level 0 + nanflow = entries
      reach t a  a is reachable from the empty tree of specification t by fills (finite positive
                 weight, or any gated weight), +, scaling by a finite positive factor, zero (copy is
                 a + zero(a))
      sc / arity no Count with a non-identity transform; children lists have the arity of their
                 primitive, IrregularlyBin thresholds cover the line (irr_total)
-   Not covered by inv (checked on the implementation only): the Stack clause (levels non-increasing,
-   level 0 + nanflow = entries) and the binary64 half (see DESIGN.md section 6 C05). *)
+   Not covered (checked on the implementation and by the bit-exact correspondence only): the
+   binary64 half - that every double is routed to exactly one bin (see DESIGN.md section 6 C05). *)
 From Coq Require Import List QArith Qcanon.
-From Hgm Require Import NumOps Xq Agg Ops XqFacts LeafAlg Algebra MulAlg Stream Invariant.
+From Hgm Require Import NumOps Xq Agg Ops XqFacts LeafAlg Algebra MulAlg Stream StackLists Invariant.
 Import ListNotations.
 
 Theorem C05_inv_zero : forall a : agg Xq, inv (zero a).
@@ -23,6 +25,15 @@ Theorem C05_inv_fill : forall t a d w a',
   same a t -> wf a -> sc a -> arity a -> okw w -> okd a d -> inv a ->
   fill a d w = (a', Done) -> inv a'.
 Proof. exact inv_fill_gen. Qed.
+
+(* what the invariant says at a Stack *)
+Theorem C05_stack : forall ts q e fx sp tm ct,
+  inv (Node (KStack ts) q e fx sp tm ct) -> stack_ok ts -> List.length fx = S (List.length ts) ->
+  nonincreasing (removelast (map (@entries_of Xq) fx)) /\
+  xadd (hd (XF 0) (map (@entries_of Xq) fx)) (last (map (@entries_of Xq) fx) (XF 0)) = e.
+Proof.
+  intros ts q e fx sp tm ct (_ & _ & _ & H) Hok L. apply H; [exact Hok | rewrite map_length; exact L].
+Qed.
 
 Theorem C05_inv_add : forall a b : agg Xq, same a b -> wf a -> wf b -> inv a -> inv b -> inv (add_t a b).
 Proof. exact inv_add. Qed.
@@ -43,6 +54,7 @@ Theorem C05_one_bin : forall (k : nodekind Xq) n v w ws sk,
 Proof. exact route_part. Qed.
 
 Print Assumptions C05_inv_zero.
+Print Assumptions C05_stack.
 Print Assumptions C05_inv_fill.
 Print Assumptions C05_inv_add.
 Print Assumptions C05_inv_mul.
